@@ -173,7 +173,8 @@ def ops(case):
         return [head + "".join(" " + kop_token(o) for o in case["program"])]
     frames = scan_reference(case)
     ftxt = "|".join("[" + ";".join(",".join(f"{v}:{a}:{b}" for v, a, b in row) for row in f) + "]" for f in frames)
-    return [f"c06.scan {ftxt} {case['dt']}" + "".join(" " + sop_token(o) for o in case["program"])]
+    fast_rows = 0 if case["fast"] < case["slow"] else 1
+    return [f"c06.scan {ftxt} {case['dt']} {fast_rows}" + "".join(" " + sop_token(o) for o in case["program"])]
 
 
 # ------------------------------------------------------------------ implementation
@@ -269,7 +270,15 @@ def show_scan(s):
     rs = "[" + ",".join(f"{int(a)}:{int(b)}" for a, b in s.frame_timestamp_ranges()) + "]"
     g = np.asarray(s.get_image("green"))
     gf = [g] if g.ndim == 2 else list(g)
-    return f"view frames={ftxt} ranges={rs} absent={'|'.join(absent_shape(x) for x in gf)}"
+    ts = np.asarray(s.timestamps)
+    tf = [ts] if ts.ndim == 2 else list(ts)
+    ttxt = "|".join("[" + ";".join(",".join(str(int(v)) for v in row) for row in f) + "]" for f in tf)
+    try:
+        pt = enc_rat(float(s.pixel_time_seconds))
+    except IndexError:
+        pt = "U"  # a derived scan reads it from a second pixel along the fast axis; there is none
+    return (f"view frames={ftxt} ranges={rs} absent={'|'.join(absent_shape(x) for x in gf)} ts={ttxt} pt={pt} "
+            f"ppl={int(s.pixels_per_line)} lpf={int(s.lines_per_frame)}")
 
 
 def impl(case):
@@ -300,7 +309,15 @@ def agree(case, i, ia, ma):
     if set(fi) != set(fm):
         return False
     for k in fi:
-        if k == "linetime":
+        if k == "pt":
+            if fi[k] == "U" or fm[k] == "U":
+                if fi[k] != fm[k]:
+                    return False
+                continue
+            a, b = Fraction(fi[k]) * 10**9, Fraction(fm[k])
+            if abs(a - b) > Fraction(1, 10**6) * max(abs(b), 1):
+                return False
+        elif k == "linetime":
             a = Fraction(fi[k]) * 10**9  # implementation reports seconds
             b = Fraction(fm[k])
             if abs(a - b) > Fraction(1, 10**6) * max(abs(b), 1):
@@ -460,6 +477,25 @@ def oracle(case, ia):
     wr = "[" + ",".join(f"{a}:{b}" for a, b in rng_of(tmin, tmax)) + "]"
     if f["ranges"] != wr:
         return f"frame ranges {f['ranges'][:200]} but the selected frames/pixels span {wr[:200]}"
+    # per-pixel timestamps: those of the selected source pixels (mean of a pixel's evenly spaced sample timestamps)
+    wt = "|".join("[" + ";".join(",".join(str(int(a + (b - a) // 2)) for a, b in zip(ra, rb)) for ra, rb in zip(fa, fb)) + "]"
+                  for fa, fb in zip(tmin, tmax))
+    if f["ts"] != wt:
+        return f"pixel timestamps {f['ts'][:200]} but the selected source pixels have {wt[:200]}"
+    # pixel counts follow the image: the fast axis runs along the columns iff its axis number is the smaller one
+    rows, cols = cur[0].shape
+    along_cols = case["fast"] < case["slow"]
+    want_ppl, want_lpf = (cols, rows) if along_cols else (rows, cols)
+    if (int(f["ppl"]), int(f["lpf"])) != (want_ppl, want_lpf):
+        return f"pixels_per_line/lines_per_frame {f['ppl']}/{f['lpf']} but the image is {rows}x{cols} with the fast axis along the {'columns' if along_cols else 'rows'}"
+    # pixel time: that of the source (samples per pixel x sample period), whatever was selected; a derived scan
+    # without a second pixel along the fast axis cannot report one, and zero-padded pixels of an unfinished frame
+    # carry no time (not judged)
+    second = (0, 1) if along_cols else (1, 0)
+    if want_ppl >= 2 and tmin[0][0, 0] > 0 and tmin[0][second] > 0:
+        want_pt = case["layout"]["k"] * case["dt"]
+        if f["pt"] == "U" or abs(Fraction(f["pt"]) * 10**9 - want_pt) > Fraction(1, 10**6) * want_pt:
+            return f"pixel_time_seconds {f['pt']} s but every pixel of the source is {want_pt} ns long"
     return None
 
 
@@ -603,14 +639,19 @@ def cases(tier, rng):
     sobjs = [scan_case(3, 2, 3, 1, 1, 1, 2, 0, 1), scan_case(2, 3, 2, 2, 0, 1, 0, 1, 0), scan_case(3, 3, 1, 1, 0, 1, 1, 0, 1)]
     if not quick:
         sobjs += [scan_case(2, 2, 4, 1, 2, 0, 3, 1, 2), scan_case(4, 2, 1, 2, 1, 2, 0, 1, 0, scan_count=1)]
-    for obj in sobjs:
+    # every order of the scan axes (X, Y, Z = 0, 1, 2): the first three objects get the full product, the others a sample
+    n_full = len(sobjs)
+    sobjs += [scan_case(3, 2, 2, 2, 1, 1, 1, 1, 2), scan_case(2, 3, 2, 1, 0, 1, 2, 2, 0), scan_case(3, 3, 2, 2, 1, 0, 1, 2, 1),
+              scan_case(2, 2, 3, 1, 1, 1, 0, 0, 2)]
+    for oi, obj in enumerate(sobjs):
         yield dict(obj, stream="small-scope", program=[])
         alpha = scan_alphabet(obj)
         for o in alpha:
             yield dict(obj, stream="small-scope", program=[o])
         r2 = rng.fork("s2")
-        a1 = alpha if not quick else r2.sample(alpha, min(len(alpha), 40))
-        a2 = alpha if not quick else r2.sample(alpha, min(len(alpha), 25))
+        light = quick or oi >= n_full
+        a1 = alpha if not light else r2.sample(alpha, min(len(alpha), 40 if oi < n_full else 15))
+        a2 = alpha if not light else r2.sample(alpha, min(len(alpha), 25 if oi < n_full else 12))
         for o1, o2 in itertools.product(a1, a2):
             # timestamps of the second op must be drawn for the derived object; keep index/slice/crop ops only
             if o2[0] == "slicet":
@@ -636,7 +677,7 @@ def cases(tier, rng):
                 prog.append(sub.choice(alpha))
             yield dict(obj, stream="random", program=prog, subseed=i)
         else:
-            fast, slow = sub.choice([(0, 1), (1, 0), (0, 2), (1, 2), (2, 1)])
+            fast, slow = sub.choice([(0, 1), (1, 0), (0, 2), (1, 2), (2, 1), (2, 0)])
             frames = sub.randint(1, 4)
             # P, L >= 2: pylake squeezes singleton image axes, which turns a one-line/one-pixel scan into a
             # lower-dimensional array (outside what the property calls a scan)
